@@ -138,6 +138,11 @@ struct FragEngine : Engine {
         std::vector<Rec> keep; for (auto& r : recs) if (r.t < INT64_MAX / 8) keep.push_back(r);
         if (reorder && keep.size() > 1) faults["fault.reorder"]++;
         for (auto& r : keep) { KV k; k.set("t", r.t).set("dg", r.dg).set("n", r.note).set("f", r.frame); p.steps.push_back(k.line()); }
+        // the application forgets state in mid-history: clear_streams() / remove_stream(id, src, dst) at random instants. What arrives of a
+        // forgotten datagram afterwards starts over; the reference table is told the same thing at the same step
+        { Rng fg = root.fork("forget"); if (fg.chance(0.15) && !p.steps.empty()) { int n = (int)fg.range(1, 2); for (int i = 0; i < n; ++i) { KV k; size_t pos = fg.below(p.steps.size() + 1);
+              if (fg.chance(0.4)) k.set("forget", "all"); else { KV tk(p.truth[fg.below(p.truth.size())]); k.set("forget", "one").set("src", tk.str("src")).set("dst", tk.str("dst")).set("id", tk.num("id")); }
+              p.steps.insert(p.steps.begin() + pos, k.line()); faults["fault.application_forgets_streams"]++; } p.cfg.set("forgets", 1); } }
         for (auto& f : faults) p.cfg.set(f.first, (int64_t)f.second);
         return p;
     }
@@ -151,7 +156,12 @@ struct FragEngine : Engine {
         std::map<std::string, RefStream> ref; Tins::IPv4Reassembler reasm;
         uint64_t sig = 0xC08; int idx = -1; bool any_frag = false, any_fault = false; int prev_dg = -1; int64_t last_t = 0;
         for (auto& sl : p.steps) {
-            ++idx; KV k(sl); Bytes frame = k.bytes("f"); int dg = (int)k.num("dg"); last_t = k.num("t");
+            ++idx; KV k(sl);
+            if (k.has("forget")) { any_fault = true; st.inc("probe.forget_op");
+                if (k.str("forget") == "all") { reasm.clear_streams(); ref.clear(); }
+                else { Addr a = Addr::from_hex(k.str("src")), b = Addr::from_hex(k.str("dst")); uint16_t id = (uint16_t)k.num("id"); reasm.remove_stream(id, Tins::IPv4Address(Tins::Endian::be_to_host(get32(a.b))), Tins::IPv4Address(Tins::Endian::be_to_host(get32(b.b)))); ref.erase(a.hexs() + b.hexs() + fmt("%u", id)); }
+                continue; }
+            Bytes frame = k.bytes("f"); int dg = (int)k.num("dg"); last_t = k.num("t");
             Decoded d = decode_eth(frame); if (!d.is_ip || d.src.is6()) continue;
             std::string note = k.str("n"); sig = mix64(sig, fnv1a(note));
             if (note.find(":dup") != std::string::npos) any_fault = true; if (prev_dg >= 0 && prev_dg != dg) any_fault = true; prev_dg = dg;
@@ -177,7 +187,7 @@ struct FragEngine : Engine {
                     }
                 }
             }
-            if (expect == 2 && expect_payload != truth_payload[dg]) return Verdict::bad("machinery:premise", "reference reassembly differs from the generated datagram", idx);
+            if (expect == 2 && expect_payload != truth_payload[dg] && !p.cfg.num("forgets", 0)) return Verdict::bad("machinery:premise", "reference reassembly differs from the generated datagram", idx);
             // ---- SUT
             Tins::EthernetII pdu(frame.data(), (uint32_t)frame.size());
             Tins::PDU::serialization_type before; if (!is_frag) before = pdu.serialize();
